@@ -26,7 +26,7 @@ fn expected_offsets(d: &Desc, v: &refmodel::Value) -> Option<Vec<usize>> {
 
 impl Engine for Layout {
     const NAME: &'static str = "layout";
-    fn run(&self, s: &dyn ShapeDyn, args: &Args) -> Accs {
+    fn run(&self, s: &'static dyn ShapeDyn, args: &Args) -> Accs {
         let id = s.id();
         let mut m = Accs::new();
         let a = acc(&mut m, "C04");
